@@ -58,10 +58,11 @@ Print Assumptions C03_fragment_hypotheses.
 (* ... and through the inline phase: the token tree of the spelled text is the tree it was written from
    (tok_of: paragraphs holding their lines as raw text separated by soft line breaks, one-line paragraphs holding raw text, one Emphasis / Strong, raw text
    (leaf FEm: the span types must also satisfy emph_spans), quotes, single-item lists with the marker's attributes) *)
-From Mistletoe Require Import Proofs.EmphSimple.
-Theorem C03_fragment_token_tree : forall types span_types keep fn t f ln st,
-  fragment_config types = true -> prose_spans span_types = true -> emph_spans span_types = true -> wf_b t = true -> (depth t <= f)%nat ->
-  make_tokens span_types keep fn (fst (fst (tokenize_block types (S f) (text_of (spell t)) ln st))) = [tok_of false t].
+From Mistletoe Require Import Proofs.EmphSimple Proofs.InertProse.
+Theorem C03_fragment_token_tree : forall types span_types keep t f ln st,
+  fragment_config types = true -> prose_spans span_types = true -> emph_spans span_types = true -> inert_spans span_types = true ->
+  wf_b t = true -> (depth t <= f)%nat ->
+  make_tokens span_types keep [] (fst (fst (tokenize_block types (S f) (text_of (spell t)) ln st))) = [tok_of false t].
 Proof. exact fragment_token_tree. Qed.
 Print Assumptions C03_fragment_token_tree.
 
@@ -74,7 +75,8 @@ Proof. exact fuel_suffices. Qed.
 Print Assumptions C03_fragment_fuel_suffices.
 
 Theorem C03_fragment_document : forall cfg t,
-  fragment_config (cfg_block cfg) = true -> prose_spans (cfg_span cfg) = true -> emph_spans (cfg_span cfg) = true -> wf_b t = true ->
+  fragment_config (cfg_block cfg) = true -> prose_spans (cfg_span cfg) = true -> emph_spans (cfg_span cfg) = true ->
+  inert_spans (cfg_span cfg) = true -> wf_b t = true ->
   fst (fst (parse_lines cfg (text_of (spell t)))) = Document [tok_of false t].
 Proof. exact fragment_document. Qed.
 Print Assumptions C03_fragment_document.
@@ -85,7 +87,7 @@ Proof. exact fragment_document_markdown. Qed.
 Print Assumptions C03_fragment_document_markdown.
 
 Theorem C03_fragment_document_configs :
-  forallb (fun c => fragment_config (cfg_block c) && prose_spans (cfg_span c) && emph_spans (cfg_span c))
+  forallb (fun c => fragment_config (cfg_block c) && prose_spans (cfg_span c) && emph_spans (cfg_span c) && inert_spans (cfg_span c))
           [cfg_html; cfg_html_nohtml; cfg_latex; cfg_mathjax; cfg_default] = true.
 Proof. exact document_configs. Qed.
 Print Assumptions C03_fragment_document_configs.
@@ -97,7 +99,8 @@ Print Assumptions C03_fragment_document_configs.
    break characters *)
 From Mistletoe Require Import Proofs.FragmentHtml.
 Theorem C03_fragment_html : forall cfg o t,
-  fragment_config (cfg_block cfg) = true -> prose_spans (cfg_span cfg) = true -> emph_spans (cfg_span cfg) = true -> wf_b t = true ->
+  fragment_config (cfg_block cfg) = true -> prose_spans (cfg_span cfg) = true -> emph_spans (cfg_span cfg) = true ->
+  inert_spans (cfg_span cfg) = true -> wf_b t = true ->
   render_html o (fst (fst (parse_lines cfg (text_of (spell t))))) = html_f o false t ++ [10].
 Proof. exact fragment_html. Qed.
 Print Assumptions C03_fragment_html.
@@ -274,3 +277,19 @@ Theorem C03_fragment_emphasis_instance :
     $"<hr />" ++ [10%Z] ++ $"</li>" ++ [10%Z] ++ $"</ul>" ++ [10%Z] ++ $"</blockquote>".
 Proof. vm_compute. repeat split; reflexivity. Qed.
 Print Assumptions C03_fragment_emphasis_instance.
+
+(* paragraphs of the fragment (leaf FPara) may hold delimiter characters - * _ [ ] ! > & ( ) - as long as none of them can open or
+   close anything where it stands (inert_para_b of Proofs/InertProse.v: no backslash, backtick, ~, <, $, {, |; no "](" ; no run of
+   * or _ that can close; & and ; not both): they are raw text of the paragraph, at every nesting depth *)
+Theorem C03_fragment_inert_instance :
+  let t := FQuote [FPara 115 $"o 2 * 3 = 6 and snake_case stays," [ $"a [b] c, ![d], e] and [f *"; $"then x > y _ z and **open" ];
+                   FItem (MBullet 42) 1 [FPara 102 $"(x)[i] = a_b * c_d" [ $"AT&T & co" ]]] in
+  wf_b t = true /\
+  text_of (spell t) = [ $"> so 2 * 3 = 6 and snake_case stays," ++ [10%Z]; $"> a [b] c, ![d], e] and [f *" ++ [10%Z]; $"> then x > y _ z and **open" ++ [10%Z];
+                        $"> " ++ [10%Z]; $"> * f(x)[i] = a_b * c_d" ++ [10%Z]; $">   AT&T & co" ++ [10%Z] ] /\
+  html_f (mkHopts false false) false t =
+    $"<blockquote>" ++ [10%Z] ++ $"<p>so 2 * 3 = 6 and snake_case stays," ++ [10%Z] ++ $"a [b] c, ![d], e] and [f *" ++ [10%Z] ++ $"then x &gt; y _ z and **open</p>" ++ [10%Z] ++
+    $"<ul>" ++ [10%Z] ++ $"<li>f(x)[i] = a_b * c_d" ++ [10%Z] ++ $"AT&amp;T &amp; co</li>" ++ [10%Z] ++ $"</ul>" ++ [10%Z] ++ $"</blockquote>" /\
+  wf_b (FPara 97 $" *b* c" []) = false /\ wf_b (FPara 97 $" [b](c)" []) = false /\ wf_b (FPara 97 $" `b`" []) = false.
+Proof. vm_compute. repeat split; reflexivity. Qed.
+Print Assumptions C03_fragment_inert_instance.
